@@ -59,6 +59,20 @@ Theorem C17_no_exception : forall limit ovf ops p, Forall live ops ->
 Proof. exact no_exception. Qed.
 Print Assumptions C17_no_exception.
 
+(* The way channel._flush_some drains an output buffer: chunk = get(n);
+   m = send(chunk) <= len(chunk); skip(m, True).  The peek changes nothing, the
+   skip does not raise, and exactly the sent part of the chunk is removed. *)
+Theorem C17_flush_pattern : forall limit ovf ops n m ap chunk, Forall live ops ->
+  let o := exec limit ovf o_new ops in
+  snd (step limit ovf o (OGet n false)) = RBytes chunk ->
+  (N.to_nat m <= length chunk)%nat ->
+  fst (step limit ovf o (OGet n false)) = o /\
+  snd (step limit ovf o (OSkip m ap)) = RUnit /\
+  inv (fst (step limit ovf o (OSkip m ap))) /\
+  abs o = firstn (N.to_nat m) chunk ++ abs (fst (step limit ovf o (OSkip m ap))).
+Proof. exact flush_pattern. Qed.
+Print Assumptions C17_flush_pattern.
+
 (* The error branch: skip(n) with n > len raises ValueError; invariant, queued
    bytes and len are unchanged; a file representation is not touched at all; a
    plain-bytes buffer has been migrated to a file representation on the way. *)
